@@ -236,13 +236,13 @@ def check(run):
     for name, variants, steps in corpus_histories():
         for v in variants:
             jobs.append((v, steps, "corpus-" + name, 0))
-    lens = [2, 2, 2, 2, 3, 3, 3, 4, 4, 5, 5, 6, 6, 8, 8, 9, 10, 12, 15, 20] if run.tier == "quick" else [2, 3, 5, 8, 12, 20, 30] * 12
+    lens = [2, 2, 2, 3, 3, 4, 5, 6, 8, 9, 10, 12, 15, 20, 30] * 3 if run.tier == "quick" else [2, 3, 4, 5, 8, 12, 20, 30] * 120
     for i, n in enumerate(lens):
         steps = mk_history(rng, n)
         for v in ("ts", "nts"):
             jobs.append((v, steps, "gen-%d" % i, 0))
     # long periodic histories: 30 calls cycling through 3 configurations (growth over long sequences)
-    for i in range(2 if run.tier == "quick" else 8):
+    for i in range(3 if run.tier == "quick" else 40):
         steps = mk_history(rng, 30, periodic=3)
         for v in ("ts", "nts"):
             jobs.append((v, steps, "long-%d" % i, 3))
